@@ -392,6 +392,8 @@ BLimitStep(d, rq, s) ==
     IN  IF s.limit > 0 /\ s.limit <= n THEN [s EXCEPT !.pc = "b_render", !.shown = s.limit, !.limited = s.limit]
         ELSE [s EXCEPT !.pc = "b_render", !.shown = n]
 
+\* Accept contains application/json -> formatAsJSON (the items only), else the template of the config.  The template also
+\* sees Listing.Name = path.Base(urlPath) and Listing.Path = urlPath; the harness checks both on the custom template.
 BRenderStep(d, rq, s) ==
     [Done(s, "listing", 200) EXCEPT !.fmt = IF rq.accept \in AcceptJson THEN "json" ELSE ConfigsOf(rq)[s.cfg].tpl]
 
